@@ -307,3 +307,59 @@ func vhSameStringList(a, b []string) bool {
 	}
 	return true
 }
+
+// C06 (signature order): the reduced route lists the parameters in the order of the Go signature, whatever the
+// grouping of the declaration ("a, b, c string, d int" gives the ordinals 0,1,2,1 - AstArbitrator.GetFuncParametersMeta
+// numbers a name by field index + index within the field, so ordinals are not positions)
+func vhUniverseParam(holder *annotations.AnnotationHolder, fv *gast.FileVersion, name, typeName string, ordinal int) metadata.FuncParam {
+	key := graphs.NewUniverseSymbolKey(typeName)
+	ref := typeref.NewNamedTypeRef(&key, nil)
+	return metadata.FuncParam{
+		SymNodeMeta: metadata.SymNodeMeta{Name: name, Annotations: holder, FVersion: fv},
+		Ordinal:     ordinal,
+		Type: metadata.TypeUsageMeta{
+			SymNodeMeta: metadata.SymNodeMeta{Name: typeName, SymbolKind: common.SymKindBuiltin, FVersion: fv},
+			Import:      common.ImportTypeNone,
+			Root:        &ref,
+		},
+	}
+}
+
+func vh_C06_signature_order_Q() {
+	n := 2 + symxChoice("nparams", 3) // 2..4 parameters
+	fv := &gast.FileVersion{Path: "ctl.go", Hash: "h"}
+	attrs := []annotations.Attribute{{Name: annotations.GleeceAnnotationMethod, Value: "GET"}, {Name: annotations.GleeceAnnotationRoute, Value: "/r"}}
+	locs := []string{annotations.GleeceAnnotationQuery, annotations.GleeceAnnotationHeader}
+	for k := 0; k < n; k++ {
+		attrs = append(attrs, annotations.Attribute{Name: locs[symxChoice("loc"+vhD(k), 2)], Value: "g" + vhD(k)})
+	}
+	holder := annotations.NewAnnotationHolderFromData(attrs, nil)
+	// the grouping of the declaration: newField[k] says whether name k starts a new field of the parameter list
+	var params []metadata.FuncParam
+	field, within := -1, 0
+	for k := 0; k < n; k++ {
+		if k == 0 || symxBool("newField"+vhD(k)) {
+			field++
+			within = 0
+		} else {
+			within++
+		}
+		params = append(params, vhUniverseParam(&holder, fv, "g"+vhD(k), []string{"string", "int"}[symxChoice("type"+vhD(k), 2)], field+within))
+	}
+	recv := metadata.ReceiverMeta{
+		SymNodeMeta: metadata.SymNodeMeta{Name: "Op", Annotations: &holder, FVersion: fv, Node: &ast.Ident{Name: "Op", NamePos: token.Pos(100)}},
+		Params:      params,
+	}
+	sp := providers.NewSyncedProvider()
+	ctx := metadata.ReductionContext{GleeceConfig: &definitions.GleeceConfig{}, MetaCache: caching.NewMetadataCache(), SyncedProvider: &sp}
+	route, err := recv.Reduce(ctx, nil)
+	symxAssert(err == nil, "C06.signature-order.reduces")
+	if err != nil {
+		return
+	}
+	symxCover("C06.signature-order.reduced")
+	symxAssert(len(route.FuncParams) == n, "C06.signature-order.every-parameter-kept")
+	for k := 0; k < n && k < len(route.FuncParams); k++ {
+		symxAssert(route.FuncParams[k].Name == "g"+vhD(k), "C06.signature-order.parameters-in-declaration-order")
+	}
+}
